@@ -117,12 +117,12 @@ class EngineBase:
 
     def clauses(self, lst):
         """(index, text, tags) of the clauses that apply to the property being checked."""
-        from contracts import clause
+        from contracts import clause, clause_label
         out = []
         for j, c in enumerate(lst):
             text, tags = clause(c)
             if tags is None or self.pid is None or self.pid in tags:
-                out.append((j, text, tags))
+                out.append((clause_label(c, j), text, tags))
         return out
 
     # ------------------------------------------------------------ binders
